@@ -95,8 +95,9 @@ theorem sim3_inv_is_sim3 (r : M3 K) (t : V3 K) (s : K) (hs : s ≠ 0) :
   ext <;> simp only [Pose.sim3Inv, Pose.sim3, M3.smul, M3.transpose] <;> field_simp
 
 /-- polynomial core of "the scale factor is recovered": `det(s·R) = s³` for a rotation `R`, so the
-real cube root that `sim3_scale` takes is `s` for `s > 0`.  **Partial**: the cube root itself
-(`numpy.power(·, 1/3)`) is not modelled; the harness checks `sim3_scale(S)³ = det` per case. -/
+real cube root that `sim3_scale` takes is `s` for `s > 0` (`sim3_scale_recovered`, over ℝ).
+**Partial**: valid in every field, but without the cube root; in the executable model the scale
+is an input and the harness checks `sim3_scale(S)³ = det` per case. -/
 theorem sim3_scale_recovered_partial (r : M3 K) (t : V3 K) (s : K) (h : IsRot r) :
     (Pose.sim3 r t s).rot.det = s ^ 3 := by
   simp only [Pose.sim3]; rw [M3.det_smul, h.2, mul_one]
@@ -339,9 +340,38 @@ theorem sim3_accepts_scaled_rotation (r : M3 ℚ) (t : V3 ℚ) (s : ℚ) (h : Is
 section real
 open Real
 
+/-- **the scale factor is recovered**: `sim3_scale(sim3(R, t, s)) = det(s·R)^(1/3) = s` for `s > 0`
+(real power, as `numpy.power(·, 1/3)`) -/
+theorem sim3_scale_recovered (r : M3 ℝ) (t : V3 ℝ) (s : ℝ) (h : IsRot r) (hs : 0 < s) :
+    (Pose.sim3 r t s).rot.det ^ ((1 : ℝ) / 3) = s := by
+  rw [sim3_scale_recovered_partial r t s h]
+  have h3 : ((1 : ℝ) / 3) = ((3 : ℕ) : ℝ)⁻¹ := by norm_num
+  rw [h3]
+  exact Real.pow_rpow_inv_natCast hs.le (by norm_num)
+
 /-- **range** `[0, π]` (for all matrices: the imaginary part `√s²` is non-negative) -/
 theorem angle_range_real (a b : M3 ℝ) : 0 ≤ angleR a b ∧ angleR a b ≤ π :=
   atan2_range _ _ (Real.sqrt_nonneg _)
+
+/-- angle facts of a single rotation `R`: `θ = atan2(√s², c)` is `arccos c ∈ [0, π]`, `cos θ = c`,
+`sin θ = √s²` -/
+theorem rot_angle_facts (r : M3 ℝ) (h : IsRot r) :
+    atan2 (√r.angleCore.2) r.angleCore.1 = Real.arccos r.angleCore.1 ∧
+    Real.cos (Real.arccos r.angleCore.1) = r.angleCore.1 ∧
+    Real.sin (Real.arccos r.angleCore.1) = √r.angleCore.2 := by
+  have h1 := h.angleCore_eq
+  obtain ⟨h2, h3⟩ := h.cos_range
+  set c := r.angleCore.1 with hc
+  set s2 := r.angleCore.2 with hs
+  have hcos : Real.cos (Real.arccos c) = c := Real.cos_arccos h2 h3
+  have hsin : Real.sin (Real.arccos c) = √s2 := by
+    rw [Real.sin_arccos]; congr 1; linarith
+  have hmem : Real.arccos c ∈ Set.Ioc (-π) π :=
+    ⟨by linarith [Real.arccos_nonneg c, Real.pi_pos], Real.arccos_le_pi c⟩
+  refine ⟨?_, hcos, hsin⟩
+  have := atan2_cos_sin (Real.arccos c) hmem
+  rw [hcos, hsin] at this
+  exact this
 
 /-- for rotations the angle is `arccos((tr(AᵀB) − 1)/2)`: its cosine is the core's `c`, its
 squared sine the core's `s²` -/
@@ -349,21 +379,9 @@ theorem angle_eq_arccos (a b : M3 ℝ) (ha : IsRot a) (hb : IsRot b) :
     angleR a b = Real.arccos (relSo3 a b).angleCore.1 ∧
     Real.cos (angleR a b) = (relSo3 a b).angleCore.1 ∧
     Real.sin (angleR a b) ^ 2 = (relSo3 a b).angleCore.2 := by
-  obtain ⟨h1, h2, h3, h4, _⟩ := angle_range a b ha hb
-  set c := (relSo3 a b).angleCore.1 with hc
-  set s2 := (relSo3 a b).angleCore.2 with hs
-  have hcos : Real.cos (Real.arccos c) = c := Real.cos_arccos h2 h3
-  have hsin : Real.sin (Real.arccos c) = √s2 := by
-    rw [Real.sin_arccos]; congr 1; linarith
-  have hmem : Real.arccos c ∈ Set.Ioc (-π) π :=
-    ⟨by linarith [Real.arccos_nonneg c, Real.pi_pos], Real.arccos_le_pi c⟩
-  have key : angleR a b = Real.arccos c := by
-    unfold angleR
-    rw [← hc, ← hs, ← hsin, ← hcos, Real.arccos_cos (Real.arccos_nonneg c) (Real.arccos_le_pi c)]
-    rw [hcos]
-    have := atan2_cos_sin (Real.arccos c) hmem
-    rw [hcos] at this
-    exact this
+  obtain ⟨key, hcos, hsin⟩ := rot_angle_facts (relSo3 a b) (relSo3_isRot ha hb)
+  have h4 : 0 ≤ (relSo3 a b).angleCore.2 := by rw [M3.angleCore_snd]; exact V3.normSq_nonneg _
+  unfold angleR
   refine ⟨key, by rw [key, hcos], ?_⟩
   rw [key, hsin, Real.sq_sqrt h4]
 
@@ -396,6 +414,107 @@ theorem angle_zero_iff_eq_real (a b : M3 ℝ) (ha : IsRot a) (hb : IsRot b) :
     rw [hc] at h1 ⊢
     have hs0 : (relSo3 a b).angleCore.2 = 0 := by linarith
     rw [hs0]; simp
+
+/-! ### exp and log over ℝ (`expR`, `logR` of `Lemmas/Lie.lean`: Rodrigues with `θ = ‖v‖`) -/
+
+/-- `exp v` is a proper rotation for every rotation vector -/
+theorem exp_is_rotation_real (v : V3 ℝ) : IsRot (expR v) := by
+  apply rodrigues_isRot
+  have hn : √v.normSq * √v.normSq = v.normSq := Real.mul_self_sqrt (V3.normSq_nonneg v)
+  have := sinc_cosc_rel (√v.normSq)
+  rw [hn] at this
+  exact this
+
+/-- `exp 0 = I` -/
+theorem exp_zero_real : expR V3.zero = M3.one := rodrigues_zero _ _
+
+/-- **log ∘ exp = id** on the open ball `0 < ‖v‖ < π`.  **Partial** w.r.t. the property only in
+that `expR`/`logR` are the mathematical functions (scipy is tied by the certificate) and that
+`‖v‖ = 0` is `exp_zero_real` + `logR I = 0` (`log_one_real`). -/
+theorem log_exp_real_partial (v : V3 ℝ) (h0 : 0 < v.normSq) (hpi : v.normSq < π ^ 2) :
+    logR (expR v) = v := by
+  have hθpos : 0 < √v.normSq := Real.sqrt_pos.mpr h0
+  have hθpi : √v.normSq < π := by
+    calc √v.normSq < √(π ^ 2) := Real.sqrt_lt_sqrt h0.le hpi
+      _ = π := Real.sqrt_sq Real.pi_pos.le
+  have hn : v.normSq = √v.normSq * √v.normSq := (Real.mul_self_sqrt h0.le).symm
+  unfold expR
+  set θ := √v.normSq with hθ
+  have hsin : 0 < sin θ := Real.sin_pos_of_pos_of_lt_pi hθpos hθpi
+  have ha : sincR θ = sin θ / θ := by unfold sincR; rw [if_neg hθpos.ne']
+  have hb : coscR θ = (1 - cos θ) / θ ^ 2 := by unfold coscR; rw [if_neg hθpos.ne']
+  have hane : sincR θ ≠ 0 := by rw [ha]; positivity
+  obtain ⟨hcore, hax⟩ := log_exp_partial v (sincR θ) (coscR θ) hane
+  have hc : (rodrigues v (sincR θ) (coscR θ)).angleCore.1 = cos θ := by
+    rw [hcore]; simp only; rw [hb, hn]; field_simp; ring
+  have hs : (rodrigues v (sincR θ) (coscR θ)).angleCore.2 = sin θ ^ 2 := by
+    rw [hcore]; simp only; rw [ha, hn]; field_simp
+  have hang : atan2 (√(rodrigues v (sincR θ) (coscR θ)).angleCore.2)
+      (rodrigues v (sincR θ) (coscR θ)).angleCore.1 = θ := by
+    rw [hc, hs, Real.sqrt_sq hsin.le]
+    exact atan2_cos_sin θ ⟨by linarith [Real.pi_pos], hθpi.le⟩
+  unfold logR
+  rw [hang, if_neg hsin.ne']
+  have hk : θ / sin θ = 1 / sincR θ := by rw [ha]; field_simp
+  rw [hk]; exact hax
+
+/-- `log I = 0` -/
+theorem log_one_real : logR M3.one = V3.zero := by
+  have : (M3.one : M3 ℝ).angleCore = (1, 0) := by
+    apply Prod.ext
+    · rw [M3.angleCore_fst, M3.trace_one]; norm_num
+    · simp [M3.angleCore, M3.one, V3.normSq, V3.dot]
+  unfold logR
+  rw [this]
+  have h0 : atan2 (√(0 : ℝ)) 1 = 0 := by rw [atan2_eq_zero_iff]; simp
+  simp only [h0, Real.sin_zero, if_true]
+
+/-- **exp ∘ log = id** on all rotations with angle `≠ π` (`c ≠ −1`).  **Partial**: angle π
+(axis sign undetermined) is excluded. -/
+theorem exp_log_real_partial (r : M3 ℝ) (h : IsRot r) (hπ : r.angleCore.1 ≠ -1) :
+    expR (logR r) = r := by
+  obtain ⟨hang, hcos, hsin⟩ := rot_angle_facts r h
+  have h1 := h.angleCore_eq
+  obtain ⟨h2, h3⟩ := h.cos_range
+  have hs2 : 0 ≤ r.angleCore.2 := by rw [M3.angleCore_snd]; exact V3.normSq_nonneg _
+  have hnw : r.axisVec.normSq = r.angleCore.2 := (M3.angleCore_snd r).symm
+  rcases eq_or_lt_of_le h3 with hc1 | hclt
+  · -- angle 0: R = I
+    have ht : r.trace = 3 := by
+      rw [M3.angleCore_fst] at hc1
+      have : r.trace - 1 = 1 * (1 + 1) := (div_eq_iff (two_ne_zero' (K := ℝ))).mp hc1
+      linarith
+    have hone := h.1.eq_one_of_trace ht
+    rw [hone, log_one_real, exp_zero_real]
+  · -- 0 < θ < π
+    set c := r.angleCore.1 with hc
+    set s2 := r.angleCore.2 with hs
+    set θ := Real.arccos c with hθ
+    have hθpos : 0 < θ := Real.arccos_pos.mpr hclt
+    have hcm : -1 < c := lt_of_le_of_ne h2 (Ne.symm hπ)
+    have hs2pos : 0 < s2 := by nlinarith
+    have hsinpos : 0 < sin θ := by rw [hsin]; exact Real.sqrt_pos.mpr hs2pos
+    have hsinsq : sin θ ^ 2 = s2 := by rw [hsin, Real.sq_sqrt hs2]
+    have hlog : logR r = V3.smul (θ / sin θ) r.axisVec := by
+      unfold logR
+      rw [← hc, ← hs, hang, if_neg hsinpos.ne']
+    have hnorm : (logR r).normSq = θ * θ := by
+      rw [hlog]
+      have : (V3.smul (θ / sin θ) r.axisVec).normSq = (θ / sin θ) ^ 2 * r.axisVec.normSq := by
+        simp only [V3.normSq, V3.dot, V3.smul]; ring
+      rw [this, hnw, ← hsinsq]; field_simp
+    unfold expR
+    rw [hnorm, Real.sqrt_mul_self hθpos.le, hlog, rodrigues_smul]
+    have ha : sincR θ * (θ / sin θ) = 1 := by
+      unfold sincR; rw [if_neg hθpos.ne']; field_simp
+    have hb : coscR θ * (θ / sin θ) ^ 2 = 1 / (1 + c) := by
+      unfold coscR; rw [if_neg hθpos.ne', hcos]
+      have hne : (1 : ℝ) + c ≠ 0 := by linarith
+      have hsq : sin θ ^ 2 = (1 - c) * (1 + c) := by rw [hsinsq]; linarith
+      field_simp
+      rw [hsq]
+    rw [ha, hb]
+    exact exp_log_partial r h (by rw [← hc]; linarith)
 
 end real
 
